@@ -245,6 +245,9 @@ def install() -> None:
             return orig_update(file_path, new_code)
         pre = _read(file_path)
         try:
+            w = rec.inject.get("raise_in_write")
+            if w and w.get("f") == rec.rel(file_path):
+                raise OSError(28, "No space left on device (injected by harness)")
             return orig_update(file_path, new_code)
         finally:
             rec.emit("Write", f=rec.rel(file_path), pre=rec.intern(pre), post=rec.intern(_read(file_path)), c=rec.cur_codemod)
@@ -257,6 +260,9 @@ def install() -> None:
     def transform(cls, module, results, file_context):
         rec = _active
         if rec is not None:
+            d = rec.inject.get("delay_transform", {}).get(rec.rel(file_context.file_path))
+            if d:
+                time.sleep(d)
             fault = rec.inject.get("raise_in_transform", {})
             if fault and fault.get("f") == rec.rel(file_context.file_path) and fault.get("c") in (None, rec.cur_codemod):
                 raise InjectedFault("injected by harness in transform")
@@ -358,7 +364,9 @@ def install() -> None:
             return rc
         finally:
             if _active is not None:
-                _active.emit("ReportWritten", rc=rc, out=str(outfile), exists=os.path.isfile(outfile))
+                # a special file (/dev/null, a pipe) cannot be inspected afterwards: the status is all there is
+                regular = os.path.isfile(outfile) or not os.path.exists(outfile)
+                _active.emit("ReportWritten", rc=rc, out=str(outfile), exists=os.path.isfile(outfile) if regular else rc == 0)
 
     codetf.CodeTF.write_report = write_report
 
